@@ -19,7 +19,7 @@ SPEC = {
             "catch handler of an unrelated exception / destructor on normal scope exit / destructor during stack unwinding "
             "of an unrelated exception (failure caught inside the destructor) / second thread started from an unwinding "
             "destructor; verdict, file, line, message, what() must equal the direct context's. errno is poisoned before "
-            "every call. distinct_nontrivial = distinct (relation, operand type, order shape, expected "
+            "every call. Call sites on lines 999..2147483000 (#line) under a digit-grouping global locale: what() must contain file, message and the plain decimal line. Second TU (optional build): expect_raises with E in {plain struct, derived plain struct, std::string, int, type with ambiguous std::exception base, virtual-base and diamond types, exception, runtime_error, logic_error} x fn in {returns, throws each of ten exotic/standard types}, is-a from an explicit table cross-checked against real catch clauses. distinct_nontrivial = distinct (relation, operand type, order shape, expected "
             "outcome) and (E, behaviour of fn, expected outcome) cells observed.",
     "level_text": "The input space of the statement is finite once the operand sets and the exception hierarchy are fixed, and "
                   "it is enumerated completely: every relation x operand-pair cell and all 130 expect_raises cells are "
@@ -34,9 +34,17 @@ SPEC = {
         # instrumentation take 23 CPU-s to compile at -O1 and 7 s at -O0; run time is irrelevant here.
         {"name": "c19", "variant": "asan", "shards": (16, 16), "timeout": (600, 3600), "extra_cxx": ["-O0", "-Wno-parentheses", "-Wno-int-in-bool-context", "-Wno-bool-compare", "-Wno-bool-operation",
                        "-Wno-unused-value"]},
+        # Expected types outside the std::exception tree / unusual inheritance, in their own TU.  optional_build: if a
+        # header change makes one of these instantiations ill-formed the stage is skipped (and the run is inconclusive
+        # unless another stage reports a violation) instead of taking the main stage down with a build error.
+        {"name": "c19_exotic", "variant": "asan", "shards": (8, 16), "timeout": (600, 3600), "extra_cxx": ["-O0"],
+         "optional_build": True},
+        # E = int alone: a header that requires E to be a class type breaks only this one.
+        {"name": "c19_exotic_int", "sources": ["c19_exotic.cc"], "variant": "asan", "shards": (2, 4), "timeout": (600, 3600),
+         "extra_cxx": ["-O0", "-DC19_EXOTIC_INT"], "optional_build": True},
     ],
     "min_evaluations": 50000,
-    "min_classes": {"quick": 380, "thorough": 380},
+    "min_classes": {"quick": 440, "thorough": 440},
     "required_classes": [
         "rel:eq:int:*", "rel:ge:int:equal:holds", "rel:ge:int:less:fails", "rel:gt:int:equal:fails", "rel:le:double:unordered:fails",
         "rel:ne:double:unordered:holds", "rel:lt:string:less:holds", "rel:eq:string:equal:holds", "rel:le:uint64:greater:fails",
@@ -56,6 +64,14 @@ SPEC = {
         "ctx:direct:expect_raises:must-fail", "ctx:catch-handler:expect_raises:must-fail", "ctx:dtor-normal-exit:expect_raises:must-fail",
         "ctx:dtor-unwinding:expect_raises:must-fail", "ctx:dtor-unwinding:expect_raises:must-pass",
         "ctx:thread-during-unwinding:expect_raises:must-fail",
+        "bigline:expect_eq:line>=1000:fails", "bigline:expect_ge:line>=1000:fails", "bigline:expect_ne:line>=1e6:fails",
+        "bigline:expect_msg:line>=1e6:fails", "bigline:expect_raises:line>=1000:fails", "bigline:expect_raises:line>=1e9:fails",
+        "bigline:expect_raises:line>=1e9:holds", "bigline:expect:line<1000:fails",
+        "raises-exotic:plain-struct:must-pass", "raises-exotic:plain-struct:must-fail", "raises-exotic:derived-plain-struct:must-pass",
+        "raises-exotic:std.string:must-pass", "raises-exotic:ambiguous-std-base:must-pass", "raises-exotic:runtime_error:must-pass",
+        "raises-exotic:exception:either", "raises-exotic:virtual-std-base:must-pass", "raises-exotic:diamond-virtual-std-base:must-pass",
+        "raises-exotic:int:must-pass", "raises-exotic:int:must-fail", "raises-exotic-fn:throws-ambiguous-std-base",
+        "raises-exotic-fn:throws-const-char-ptr", "raises-exotic-fn:returns", "ctx-exotic:dtor-unwinding:must-pass",
     ],
     "exhaustive": {"quick": True, "thorough": True},
     "exhaustive_note": "all relation x operand-pair cells of the stated boundary sets and all 130 (E, behaviour) cells of the "
